@@ -2461,3 +2461,33 @@ def os_getmtime(interp, path):
     if k not in memo:
         memo[k] = CTX.fresh('mtime', 'real')
     return memo[k]
+
+
+def _np_binary_ufunc(op):
+    def f(interp, a, b, out=None, where=True, **kw):
+        """numpy binary ufunc with the optional out= / where= arguments: positions where the mask is false keep what `out` held."""
+        res = _binop(interp, op, a, b)
+        if out is None:
+            if where is not True:
+                raise Unsupported("ufunc where= without out=")
+            return res
+        if not isinstance(out, SArr):
+            raise Unsupported("ufunc out= that is not an array")
+        res = res if isinstance(res, SArr) else SArr(out.shape, (lambda v: (lambda idx: v))(res), 'real')
+        rs = res._snapshot()
+        if where is True:
+            A.setitem(out, tuple(slice(None) for _ in out.shape), SArr(res.shape, rs, res.dtype))
+            return out
+        if not isinstance(where, SArr):
+            raise Unsupported("ufunc where= that is not an array")
+        ms = where._snapshot()
+        old = out._snapshot()
+        merged = SArr(out.shape, lambda idx: sym_if(to_bool(ms(idx)) if not isinstance(ms(idx), bool) else Sym.lift(ms(idx)), rs(idx), old(idx)), out.dtype)
+        A.setitem(out, tuple(slice(None) for _ in out.shape), merged)
+        return out
+    return f
+
+
+LIB['numpy.add'] = _np_binary_ufunc('Add')
+LIB['numpy.subtract'] = _np_binary_ufunc('Sub')
+LIB['numpy.multiply'] = _np_binary_ufunc('Mult')
